@@ -4,10 +4,11 @@
 (* the driver); the sequence of external events is printed as JSON.         *)
 EXTENDS LocalPool, Json
 
-CONSTANT D
+CONSTANTS D, BadKinds
 VARIABLE ev
 gvars == <<vars, ev>>
 
+BadAttr(k) == CASE k = "enq_extra" -> {} [] k = "enq_limit_str" -> {"badlimit"} [] OTHER -> {"baddeps"}
 GenInit == Init /\ ev = << >>
 ExtStep ==
   /\ Quiescent
@@ -17,6 +18,12 @@ ExtStep ==
                           /\ Cancel(t) /\ ev' = Append(ev, [e |-> "Cancel", t |-> t])
                        \/ \E c \in {0, 0, 1} : ProcExit(t, c) /\ ev' = Append(ev, [e |-> "Exit", t |-> t, rc |-> c])
      \/ Tick /\ ev' = Append(ev, [e |-> "Tick"])
+     (* client-side steps that must not affect the pool (C14) *)
+     \/ \E k \in BadKinds : UNCHANGED vars /\ ev' = Append(ev, [e |-> "Bad", kind |-> k])
+     \/ BadKinds # {} /\ UNCHANGED vars /\ ev' = Append(ev, [e |-> "States"])
+     (* well-formed JSON of the wrong shape that the server nevertheless accepts as a task *)
+     \/ BadKinds # {} /\ \E k \in {"enq_extra", "enq_unknown_dep", "enq_deps_str", "enq_limit_str"} :
+           /\ Enqueue({}, 0, BadAttr(k)) /\ ev' = Append(ev, [e |-> "BadEnq", kind |-> k, t |-> n])
 IntStep == (\E t \in Ids : Internal(t)) /\ ev' = ev
 Pad == Quiescent /\ n = MaxTasks /\ UNCHANGED gvars      \* lets a finished behaviour reach depth D
 GenNext == ExtStep \/ IntStep \/ Pad
